@@ -162,7 +162,7 @@ func genC16(x *Ctx) *c16Scen {
 			r.Seed = tp.G(1 << 20)
 			r.BChunks = chunkPlan(tp, tp.Range(1, 3), 97)
 			if tp.Chance(450) {
-				r.Fault = []string{"btrunc", "berr", "bhdr", "bflip", "bmislabel"}[tp.G(5)]
+				r.Fault = []string{"btrunc", "berr", "bhdr", "bflip", "bmislabel", "btrail"}[tp.G(6)]
 				r.FaultAt = tp.G(1000)
 			}
 			reqs = append(reqs, r)
@@ -256,6 +256,24 @@ func runC16(x *Ctx) {
 				}
 				t.Yield(sim.SiteStart, sim.KNote, uint64(r.ID), f)
 				data := append([]byte{}, r.body...)
+				if r.Fault == "btrail" {
+					// more data behind the first document (a second document, or junk): whatever the reader
+					// makes of this request, nothing of it may reach a later one
+					plain, err := Decode(r.Coding, data)
+					if err == nil {
+						trail := []string{`{"name":"intruder","count":666,"items":["x"]}`, `<entity><name>intruder</name><count>666</count></entity>`, "}]>>", "\n\n 12345 "}[r.FaultAt%4]
+						plain = append(plain, trail...)
+						switch r.Coding {
+						case "gzip":
+							data = Gzip(plain)
+						case "deflate":
+							data = Zlib(plain)
+						default:
+							data = plain
+						}
+					}
+					t.Count("fault-btrail")
+				}
 				b := &sim.SimBody{T: t, Data: data, Chunks: scaleChunks(r.BChunks, len(data), 300)}
 				hdr := map[string]string{}
 				switch r.CTForm {
